@@ -925,6 +925,137 @@ async def c17_imports(w):
             "expected": "ModuleNotFoundError and nothing bound for modules off the allow-list; allow-listed modules import"}
 
 
+async def c18_new_subsystem_function_error(w):
+    """An @event_trigger function that raises (new subsystem): the error must be reported once on the SCRIPT's logger
+    with the traceback, not on pyscript's own function logger."""
+    hass = await boot_full(legacy=False)
+    LOGS.clear()
+    src = '@event_trigger("boom_event")\ndef f(**kw):\n    x = 1\n    raise ValueError("user error here")\n'
+    gctx, actx, exc = await run_source("file.c18", src)
+    await settle(10)
+    cbs = hass.bus.listeners.get("boom_event", [])
+    from types import SimpleNamespace as NS
+    for cb in list(cbs):
+        await cb(NS(event_type="boom_event", context=None, data={}))
+    await settle(30)
+    recs = [(r.name, r.getMessage()[:200]) for r in LOGS if r.levelno >= 40]
+    on_script = [r for r in recs if ".file.c18" in r[0]]
+    elsewhere = [r for r in recs if ".file.c18" not in r[0]]
+    await shutdown()
+    rep = len(on_script) != 1 or bool(elsewhere)
+    return {"reproduced": rep, "observed": {"listeners": len(cbs), "error_records": recs[:4]},
+            "expected": "exactly one error record on the script's logger custom_components.pyscript.file.c18[.f] (with traceback), none elsewhere"}
+
+
+def _gen_fault_programs():
+    faults = {"zerodiv": "1 / 0", "name": "undefined_name_xyz", "raise": "raise ValueError('v')", "index": "[][1]"}
+    wraps = {
+        "plain": "{F}",
+        "if": "if True:\n    {F}",
+        "for": "for _i in [1]:\n    {F}",
+        "tryfinally": "try:\n    {F}\nfinally:\n    z = 3",
+        "while": "while True:\n    {F}\n    break",
+    }
+    import textwrap
+    progs = []
+    for depth in (1, 2, 3):
+        for fk, fsrc in faults.items():
+            for wk, wsrc in wraps.items():
+                for pos in (0, 2):
+                    body = ["a = 1", "b = 2", "c = 3"]
+                    stmt = wsrc.replace("{F}", fsrc)
+                    body.insert(pos, stmt)
+                    src = ""
+                    for d in range(depth - 1, -1, -1):
+                        inner = "\n".join(body) if d == depth - 1 else f"q = 0\nreturn f{d + 1}(x) + 1"
+                        if d == depth - 1:
+                            inner += "\nreturn 0"
+                        src += f"def f{d}(x):\n" + textwrap.indent(inner, "    ") + "\n\n"
+                    src += "pre = 5\nresult = f0(1)\n"
+                    progs.append((f"depth={depth},fault={fk},wrap={wk},pos={pos}", src))
+    return progs
+
+
+async def c18_traceback_bounded(w):
+    """Bounded stand-in: (function, line) of every script frame in pyscript's reconstructed traceback against
+    CPython's own traceback for the same source."""
+    import traceback
+    from custom_components.pyscript.eval import AstEval, EvalExceptionFormatter
+    from custom_components.pyscript.function import Function
+    from custom_components.pyscript.global_ctx import GlobalContext, GlobalContextMgr
+    await boot_full()
+    failures, n = [], 0
+    for label, src in _gen_fault_programs():
+        n += 1
+        fname = "/cfg/pyscript/tb.py"
+        try:
+            exec(compile(src, fname, "exec", dont_inherit=True), {})
+            cpy = None
+        except Exception as e:  # noqa
+            cpy = (type(e).__name__, [(fr.name, fr.lineno) for fr in traceback.extract_tb(e.__traceback__) if fr.filename == fname])
+        gctx = GlobalContext("file.tb", global_sym_table={"__name__": "file.tb"}, manager=GlobalContextMgr)
+        gctx.file_path = fname
+        gctx.source = src
+        a = AstEval("file.tb", global_ctx=gctx)
+        Function.install_ast_funcs(a)
+        a.parse(src, filename=fname)
+        try:
+            await a.eval()
+            pys = None
+        except Exception as e:  # noqa
+            f = EvalExceptionFormatter(e)
+            pys = (type(e).__name__, [(fr.name, fr.lineno) for fr in f.stack if fr.filename == fname])
+        # module-level frame: CPython names it <module>, pyscript names it after the context
+        norm = lambda t: None if t is None else (t[0], [("<module>" if nm in ("<module>", "file.tb", None) else nm, ln) for nm, ln in t[1]])
+        if norm(cpy) != norm(pys):
+            failures.append({"signature": "traceback:" + label, "program": src, "cpython": norm(cpy), "pyscript": norm(pys)})
+    # cross-file call chain: a function defined in one file, called from another (as after an import)
+    n += 1
+    ga = GlobalContext("modules.mymod", global_sym_table={"__name__": "mymod"}, manager=GlobalContextMgr)
+    ga.file_path, ga.source = "/cfg/pyscript/modules/mymod.py", "k = 2\n\ndef scale(x):\n    y = x + k\n    return y / 0\n"
+    aa = AstEval("modules.mymod", global_ctx=ga)
+    Function.install_ast_funcs(aa)
+    aa.parse(ga.source, filename=ga.file_path)
+    await aa.eval()
+    gb = GlobalContext("file.caller", global_sym_table={"__name__": "file.caller", "scale": ga.global_sym_table["scale"]}, manager=GlobalContextMgr)
+    gb.file_path, gb.source = "/cfg/pyscript/caller.py", "def run():\n    z = 1\n    return scale(z)\n\nout = run()\n"
+    ab = AstEval("file.caller", global_ctx=gb)
+    Function.install_ast_funcs(ab)
+    ab.parse(gb.source, filename=gb.file_path)
+    try:
+        await ab.eval()
+        got = None
+    except Exception as e:  # noqa
+        got = [(fr.filename, fr.name, fr.lineno) for fr in EvalExceptionFormatter(e).stack if fr.filename.startswith("/cfg/")]
+    want = [("/cfg/pyscript/caller.py", "file.caller", 5), ("/cfg/pyscript/caller.py", "run", 3), ("/cfg/pyscript/modules/mymod.py", "scale", 5)]
+    if got != want:
+        failures.append({"signature": "traceback:cross-file", "pyscript": got, "expected": want})
+    # the report reaches the script's logger verbatim, whatever characters the message contains
+    n += 1
+    LOGS.clear()
+    gc = GlobalContext("file.pct", global_sym_table={"__name__": "file.pct"}, manager=GlobalContextMgr)
+    gc.file_path, gc.source = "/cfg/pyscript/pct.py", "raise ValueError('100% wrong %s %d')\n"
+    ac = AstEval("file.pct", global_ctx=gc)
+    Function.install_ast_funcs(ac)
+    ac.parse(gc.source, filename=gc.file_path)
+    try:
+        await ac.eval()
+    except Exception as e:  # noqa
+        ac.log_exception(e)
+    msgs = []
+    for r in LOGS:
+        try:
+            msgs.append((r.name, r.getMessage()))
+        except Exception as e2:  # noqa
+            msgs.append((r.name, f"<unrenderable record: {e2!r}>"))
+    if not any("ValueError: 100% wrong %s %d" in m for _, m in msgs):
+        failures.append({"signature": "log:percent-in-message", "records": msgs[:3]})
+    await shutdown()
+    return {"unit": "EvalExceptionFormatter (file, function, line) attribution", "method": "generated faulty programs vs CPython traceback",
+            "bound": "call depth 1-3 x 4 fault kinds x 5 enclosing constructs x 2 positions", "cases": n, "failures": failures[:5],
+            "reproduced": bool(failures)}
+
+
 SCENARIOS = {k: v for k, v in list(globals().items()) if asyncio.iscoroutinefunction(v) and k[0] == "c"}
 
 if __name__ == "__main__":
